@@ -157,6 +157,35 @@ class State:
         return State(dict(self.env), list(self.events), list(self.conds))
 
 
+def _as_conditional_assign(s):
+    if len(s.body) != 1 or len(s.orelse) > 1:
+        return None
+    a = s.body[0]
+    if not (isinstance(a, ast.Assign) and len(a.targets) == 1 and isinstance(a.targets[0], ast.Name)):
+        return None
+    if s.orelse:
+        b = s.orelse[0]
+        if not (isinstance(b, ast.Assign) and len(b.targets) == 1 and isinstance(b.targets[0], ast.Name) and
+                b.targets[0].id == a.targets[0].id):
+            return None
+        other = b.value
+    else:
+        other = ast.copy_location(ast.Name(id=a.targets[0].id, ctx=ast.Load()), a)
+    if any(isinstance(x, (ast.Call,)) and not isinstance(x.func, ast.Name) for v in (a.value, other) for x in ast.walk(v)):
+        # method calls (reads, decodes) stay statements: each branch is explored on its own path
+        return None
+    new = ast.Assign(targets=[a.targets[0]], value=ast.IfExp(test=s.test, body=a.value, orelse=other))
+    ast.copy_location(new, s)
+    ast.copy_location(new.value, s)
+    new._parent = getattr(s, '_parent', None)
+    for n in ast.walk(new):
+        for c in ast.iter_child_nodes(n):
+            if not hasattr(c, '_parent') or c in (new.value,):
+                c._parent = n
+    new.value._parent = new
+    return new
+
+
 class Outcome:
     def __init__(self, state, kind, value=None, node=None):
         self.state, self.kind, self.value, self.node = state, kind, value, node   # kind: return | raise | fall
@@ -878,6 +907,11 @@ class Interp:
                 st.conds.append((U(s.test), True))
             return [Outcome(st, 'fall')]
         if isinstance(s, ast.If):
+            # `if c: x = a  else: x = b`  (or one-armed, else keeps x) is the conditional expression `x = a if c else b`:
+            # evaluate it as one value so that the pad / alignment idioms stay one polynomial
+            m = _as_conditional_assign(s)
+            if m is not None:
+                return self.stmt(m, st, func, selfobj)
             t = self.truth(s.test, st, func, selfobj)
             if t is True:
                 return self.run_body(s.body, [st], func, selfobj)
